@@ -84,6 +84,10 @@ def gen_params(rng):
         opts["chromosomes"] = rng.sample(["chr%d" % (i + 1) for i in range(p["n_chrom"])], p["n_chrom"] - 1)
     if ped and rng.random() < (0.6 if paired else 0.2):
         opts["genetic_haplotyping"] = False  # read-connected sets only: with paired reads they interleave
+        if paired:
+            # recombination events inside interleaved sets: many true crossovers and a recombination rate that makes them cheap
+            p["recomb_prob"] = rng.choice([0.2, 0.4])
+            opts["recombrate"] = rng.choice([1.26, 50.0, 50.0])
     if ped and rng.random() < 0.2:
         opts["recombrate"] = rng.choice([0.01, 1.26, 50.0])
     return p, opts
